@@ -122,7 +122,7 @@ def refers_exh(F, kind):
         # writes in the body: Assign whose lhs derefs a binding
     # local "remapper" helpers: fn(p: &mut u32, map) that writes `*p = *map.get(p)` (key and target are the same parameter)
     remappers = set()
-    for g_ in F.fns:
+    for g_ in getattr(F, "all_fns", F.fns):
         if g_.get("body") is None:
             continue
         pms = g_.get("params", [])
